@@ -45,9 +45,10 @@ def _subst(v, sym, new):
 
 
 class FlagInt:
-    def __init__(self, F, body, on_call=None, cap=30000, on_edge=None):
+    def __init__(self, F, body, on_call=None, cap=30000, on_edge=None, on_block=None):
         self.F, self.b = F, body
         self.on_call = on_call
+        self.on_block = on_block    # on_block(fi, bb, ghost) -> None | new ghost | False (stop exploring this path), on entering a block
         self.on_edge = on_edge      # on_edge(fi, bb, symbol, adt, variant, ghost) -> new ghost | None, when a branch refines an unknown enum
         self.cap = cap
         self.capped = False
@@ -143,11 +144,12 @@ class FlagInt:
         vals.pop(pl["l"], None)
 
     # -- exploration -----------------------------------------------------------------------------
-    def run(self, init_vals=None, ghost=None):
+    def run(self, init_vals=None, ghost=None, start_bb=0):
         b = self.b
         start = (tuple(sorted((init_vals or {}).items(), key=lambda kv: kv[0])), tuple(sorted((ghost or {}).items())))
-        seen = {(0, start)}
-        work = [(0, start)]
+        seen = {(start_bb, start)}
+        work = [(start_bb, start)]
+        first = True
         while work:
             bi, (tv, tg) = work.pop()
             self.visited += 1
@@ -159,6 +161,13 @@ class FlagInt:
                 continue
             vals = dict(tv)
             ghost = dict(tg)
+            if self.on_block and not first:
+                g = self.on_block(self, bi, ghost)
+                if g is False:
+                    continue
+                if g is not None:
+                    ghost = g
+            first = False
             for si, s in enumerate(blk["stmts"]):
                 self._stmt(bi, si, s, vals)
             for tgt, v2, g2 in self._term(bi, blk["term"], vals, ghost):
@@ -239,6 +248,8 @@ class FlagInt:
                 v = ("en", norm(rv["name"]), rv["variant"], ops)
             elif rv["ak"] == "tuple":
                 v = ("tup", ops)
+            elif rv["ak"] == "closure":
+                v = ("clo", norm(rv["name"]), ops)
         if v is None and not s["place"]["p"]:
             site = (bi, si)
             if k == "use" and rv["op"]["k"] in ("copy", "move"):
@@ -376,6 +387,30 @@ class FlagInt:
                 for val, g in r:
                     yield out(val, g)
                 return
+        if callee.endswith(("Option::map_or", "Option::is_some_and", "Option::is_none_or")) and args and args[-1] is not None and args[-1][0] == "clo":
+            # Option combinators with a closure: None -> the default, Some(x) -> whatever the closure body computes (analysed with the same hooks)
+            opt = args[0]
+            dflt = args[1] if callee.endswith("map_or") else ("b", callee.endswith("is_none_or"))
+            outs = []
+            if opt is None or opt[0] != "en" or opt[2] == "None":
+                outs.append((dflt, ghost))
+            if opt is None or opt[0] != "en" or opt[2] == "Some":
+                cb = self.F.body(args[-1][1])
+                if cb is None:
+                    outs.append((None, ghost))
+                else:
+                    sub = FlagInt(self.F, cb, self.on_call, self.cap, self.on_edge)
+                    sub.run(ghost=ghost)
+                    self.visited += sub.visited
+                    self.capped = self.capped or sub.capped
+                    for o in sub.obs:
+                        if o not in self.obs:
+                            self.obs.append(o)
+                    for g, rv in sub.rets:
+                        outs.append((rv, dict(g)))
+            for val, g in outs:
+                yield out(val, g)
+            return
         if callee.endswith("Try>::branch") or callee.endswith("::branch"):
             a = args[0] if args else None
             if a is not None and a[0] == "en" and a[1] == RESULT:
